@@ -44,6 +44,9 @@ func init() {
 		// the layer-2 bond episodes: block processing must not touch the recorded bonds of users of another dApp
 		c20For(r, "C03", map[string]string{"C20/end-block/bond-record-of-another-dapp-changed": "C03/block-processing/bond-record-of-a-non-signer-changed",
 			"C20/bootstrap-refund/own-bonder-underpaid": "C03/block-processing/bond-of-a-non-signer-lost", "C20/bootstrap-refund/not-in-full": "C03/block-processing/bond-of-a-non-signer-not-refunded"})
+		// whoever is debited must have signed: the authentication scenario (Ethereum-style transactions that name one account and
+		// are signed by another included)
+		c02For(r, "C03")
 		// the basket reserves belong to the holders of THAT basket's token: nobody redeems them with another token
 		c11For(r, "C03", map[string]string{"C11/burn/foreign-denom-accepted": "C03/basket/reserves-paid-for-another-baskets-token",
 			"C11/burn/over-pro-rata": "C03/basket/reserves-paid-above-pro-rata"})
